@@ -72,16 +72,31 @@ func gen(r *hx.Rand, tier string, i int) string {
 	}
 	n := 2 + r.Intn(24)
 	var pending []string
+	started := map[string]bool{}
 	nextID := 0
 	readsOnly := 0
 	for j := 0; j < n; j++ {
-		if len(pending) > 0 && r.Chance(30) { // drain (or abandon after a few elements) one of the open iterators
+		if len(pending) > 0 && r.Chance(35) { // use one of the open iterators
 			i := r.Intn(len(pending))
-			ops = append(ops, "in:"+pending[i]+":"+take(r))
-			pending = append(pending[:i], pending[i+1:]...)
+			switch y := r.Intn(100); {
+			case y < 45: // First(), up to n elements, Release
+				ops = append(ops, "in:"+pending[i]+":"+take(r))
+				delete(started, pending[i])
+				pending = append(pending[:i], pending[i+1:]...)
+			case y < 65 || !started[pending[i]]: // First() (again, if it was used before)
+				ops = append(ops, "if:"+pending[i])
+				started[pending[i]] = true
+			default: // a run of Next() calls
+				for k := 1 + r.Intn(4); k > 0; k-- {
+					ops = append(ops, "ix:"+pending[i])
+				}
+			}
 			continue
 		}
 		x := r.Intn(100)
+		if len(started) > 0 && (x >= 58 && x < 70 || x >= 93) && r.Chance(85) {
+			x = 34 + r.Intn(10) // a Reset of a memdb would poison the positioned iterators: mostly avoided
+		}
 		if len(pending) > 0 && len(pending) < 3 && r.Chance(12) {
 			x = 30 // a second / third iterator while one is open
 		}
@@ -288,6 +303,13 @@ func freshStore() *leveldbstore.LevelDBStore {
 	return curStore
 }
 
+func subClass(cls string, sub bool, suffix string) string {
+	if sub {
+		return cls + suffix
+	}
+	return cls
+}
+
 func exec(line string) hx.Result {
 	f := strings.Fields(line)
 	if len(f) != 2 || f[0] != "L" {
@@ -314,11 +336,18 @@ func exec(line string) hx.Result {
 	}
 	pk := func(k []byte) string { return string(append([]byte{5}, k...)) }
 	type openIt struct {
-		it     scommon.StoreIterator
-		cache  bool
-		prefix []byte
-		psnap  map[string][]byte // store content when the iterator was created (LevelDB iterators read a snapshot)
-		dirty  bool              // a state-changing op ran since creation
+		it       scommon.StoreIterator
+		cache    bool
+		prefix   []byte
+		psnap    map[string][]byte // store content when the iterator was created (LevelDB iterators read a snapshot)
+		dirty    bool              // a state-changing op ran since creation
+		started  bool              // First()/Next() has been called
+		poisoned bool              // a memdb it stands on was Reset while it was positioned
+		firsts   int               // number of First() calls so far
+		nexts    int               // number of Next() calls so far
+		expect   []kv              // live keys when First() was last called …
+		pos      int               // … and the position reached
+		valid    bool              // no state-changing op since that First()
 	}
 	open := map[string]*openIt{}
 	var openOrder []string
@@ -340,7 +369,82 @@ func exec(line string) hx.Result {
 	markDirty := func() {
 		for _, o := range open {
 			o.dirty = true
+			o.valid = false
 		}
+	}
+	poison := func(tx, blk bool) {
+		for _, o := range open {
+			if o.started && ((tx && o.cache) || blk) {
+				o.poisoned = true
+				kinds["iter-poisoned-by-reset"] = true
+			}
+		}
+	}
+	// expected list of an open iterator right now: memory layers as they are, store as it was at creation
+	expectOf := func(o *openIt) ([]kv, *ref, int, string) {
+		mm := &ref{m.t, m.b, o.psnap}
+		if o.cache {
+			return mm.live(0, append([]byte{5}, o.prefix...)), mm, 0, "cache"
+		}
+		return mm.live(1, o.prefix), mm, 1, "overlay"
+	}
+	rawKey := func(o *openIt, k []byte) []byte {
+		if o.cache {
+			return append([]byte{5}, k...)
+		}
+		return k
+	}
+	// one First()/Next() call on an open iterator: output and predicate
+	stepIt := func(o *openIt, first bool) string {
+		tag := "n"
+		var ok bool
+		if first {
+			tag = "f"
+			ok = o.it.First()
+			o.firsts++
+			want, _, _, _ := expectOf(o)
+			o.expect, o.pos, o.valid = want, 0, true
+			if o.firsts >= 2 {
+				kinds["iter-first-again"] = true
+			}
+		} else {
+			ok = o.it.Next()
+			o.nexts++
+			o.pos++
+		}
+		o.started = true
+		out := tag + "=0"
+		var gk, gv []byte
+		if ok {
+			gk, gv = cp(o.it.Key()), cp(o.it.Value())
+			out = tag + "=1," + hx.Hex(gk) + "=" + hx.Hex(gv)
+		}
+		if o.valid {
+			_, level := 0, "overlay"
+			if o.cache {
+				level = "cache"
+			}
+			cls := "stepwise-iter-" + level
+			sub := true
+			if o.firsts >= 2 {
+				// First() does not clear nextMemEnd/nextBackEnd left by the earlier pass (they can be set by the skip loop of First() itself)
+				cls, sub = "refirst-iter-"+level, false
+			}
+			if !first && o.firsts == 0 {
+				cls = "next-before-first-iter-" + level
+				o.valid = false // Next() on a fresh JoinIter has no specified result
+			} else if o.pos < len(o.expect) {
+				w := o.expect[o.pos]
+				if !ok {
+					fail(subClass(cls, sub, "-ends-early"), fmt.Sprintf("%s iterator(%s): call %d reports exhaustion, live keys are %s", level, hx.Hex(o.prefix), o.pos, showKVs(o.expect)))
+				} else if !bytes.Equal(rawKey(o, gk), w.k) || !bytes.Equal(gv, w.v) {
+					fail(subClass(cls, sub, "-wrong-element"), fmt.Sprintf("%s iterator(%s): call %d yields %s=%s, live keys are %s", level, hx.Hex(o.prefix), o.pos, hx.Hex(gk), hx.Hex(gv), showKVs(o.expect)))
+				}
+			} else if ok {
+				fail(subClass(cls, sub, "-extra-element"), fmt.Sprintf("%s iterator(%s): call %d yields %s=%s beyond the live keys %s", level, hx.Hex(o.prefix), o.pos, hx.Hex(gk), hx.Hex(gv), showKVs(o.expect)))
+			}
+		}
+		return out
 	}
 	for _, o := range strings.Split(f[1], ";") {
 		a := strings.Split(o, ":")
@@ -350,7 +454,7 @@ func exec(line string) hx.Result {
 			if (a[0] == "i" || a[0] == "bi") && i == 1 {
 				break
 			}
-			if a[0] == "io" || a[0] == "bo" || a[0] == "in" {
+			if a[0] == "io" || a[0] == "bo" || a[0] == "in" || a[0] == "if" || a[0] == "ix" {
 				break
 			}
 			v, err := hx.Unhex(x)
@@ -392,6 +496,18 @@ func exec(line string) hx.Result {
 			if len(open) >= 2 {
 				kinds["iters-open>=2"] = true
 			}
+		case (a[0] == "if" || a[0] == "ix") && len(a) == 2:
+			tag := map[string]string{"if": "f", "ix": "n"}[a[0]]
+			o, isOpen := open[a[1]]
+			switch {
+			case !isOpen:
+				outs = append(outs, tag+"=none")
+			case o.poisoned:
+				outs = append(outs, tag+"=poisoned")
+			default:
+				outs = append(outs, stepIt(o, a[0] == "if"))
+				kinds["iter-stepwise"] = true
+			}
 		case a[0] == "in" && len(a) == 3:
 			n, ok := parseN(a[2])
 			if !ok {
@@ -403,14 +519,15 @@ func exec(line string) hx.Result {
 				break
 			}
 			delete(open, a[1])
+			if o.poisoned {
+				o.it.Release()
+				outs = append(outs, "i=poisoned")
+				break
+			}
+			refirst := o.firsts >= 1
 			got := drain(o.it, n)
 			outs = append(outs, "i="+showKVs(got))
-			mm := &ref{m.t, m.b, o.psnap}
-			lv, level, pfx := 1, "overlay", o.prefix
-			if o.cache {
-				lv, level, pfx = 0, "cache", append([]byte{5}, o.prefix...)
-			}
-			want := mm.live(lv, pfx)
+			want, mm, lv, level := expectOf(o)
 			if n < len(want) {
 				want = want[:n]
 			}
@@ -422,10 +539,13 @@ func exec(line string) hx.Result {
 				}
 			}
 			tag := "deferred-"
-			if o.dirty {
+			switch {
+			case refirst:
+				kinds["iter-first-again"] = true
+			case o.dirty:
 				tag = "deferred-after-writes-"
 				kinds["iter-deferred-after-writes"] = true
-			} else {
+			default:
 				kinds["iter-deferred-reads-only"] = true
 			}
 			if showKVs(gp) != showKVs(want) {
@@ -436,7 +556,11 @@ func exec(line string) hx.Result {
 						ws[i] = kv{e.k[1:], e.v}
 					}
 				}
-				fail(tag+iterClass(level, gp, want, mm, lv), fmt.Sprintf("%s iterator(%s) opened earlier yields %s, live keys with the prefix are %s", level, hx.Hex(o.prefix), showKVs(got), showKVs(ws)))
+				cls := tag + iterClass(level, gp, want, mm, lv)
+				if refirst {
+					cls = "refirst-iter-" + level
+				}
+				fail(cls, fmt.Sprintf("%s iterator(%s) opened earlier yields %s, live keys with the prefix are %s", level, hx.Hex(o.prefix), showKVs(got), showKVs(ws)))
 			}
 		case a[0] == "s" && len(a) == 3:
 			if err := store.Put(b[0], b[1]); err != nil {
@@ -498,11 +622,13 @@ func exec(line string) hx.Result {
 				fail(iterClass("cache", gp, wp, m, 0), fmt.Sprintf("CacheDB.NewIterator(%s) yields %s, live keys are %s", hx.Hex(b[0]), showKVs(got), showKVs(want)))
 			}
 		case a[0] == "c" && len(a) == 1:
+			poison(true, false)
 			cache.Commit()
 			applyWrites(m.b, m.t, false)
 			m.t = map[string][]byte{}
 			kinds["commit"] = true
 		case a[0] == "r" && len(a) == 1:
+			poison(true, false)
 			cache.Reset()
 			m.t = map[string][]byte{}
 			kinds["reset"] = true
@@ -546,11 +672,13 @@ func exec(line string) hx.Result {
 			}
 			applyWrites(m.p, m.b, true)
 			if a[0] == "bc" {
+				poison(false, true)
 				ov.Reset()
 				m.b = map[string][]byte{}
 			}
 			kinds["block-commit"] = true
 		case a[0] == "br" && len(a) == 1:
+			poison(false, true)
 			ov.Reset()
 			m.b = map[string][]byte{}
 		default:
@@ -657,6 +785,11 @@ func main() {
 			"L s:0500:01;p:01:02;io:0:-;io:1:00;bo:2:05;g:01;bg:06;in:1:a;g:00;in:0:a;in:2:a",
 			"L s:0500:01;io:0:-;bo:1:05;p:01:02;s:0502:03;c;in:0:a;in:1:a;in:2:a",
 			"L p:00:01;io:0:00;c;bc;r;in:0:a",
+			"L s:0501:09;s:0502:08;p:0103:03;io:1:-;if:1;ix:1;ix:1;ix:1;ix:1;if:1;ix:1;ix:1;p:0100:77;io:2:01;if:2;p:0101:66;ix:2;ix:2;c;ix:2;in:1:a",
+			"L s:0501:01;s:0502:02;bo:0:05;if:0;ix:0;ix:0;if:0;ix:0;ix:0;in:0:a",
+			"L p:01:01;p:02:02;io:0:-;if:0;if:0;ix:0;in:0:a",
+			"L p:01:01;p:03:03;io:0:-;if:0;p:02:02;d:03;ix:0;ix:0;bp:0504:04;ix:0;ix:0",
+			"L s:0501:01;io:0:-;ix:0;ix:0;bo:1:-;ix:1",
 		},
 		N: map[string]int{"quick": 20000, "thorough": 400000},
 	})
